@@ -27,3 +27,5 @@ for c in $P $OTHERS; do
 done
 git -C /repo checkout -- .
 echo "RESULT $P:$RES"
+# evidence files written while a seeded change was applied are not evidence about the unchanged tree
+git -C /verif checkout -- evidence 2>/dev/null
